@@ -1,80 +1,107 @@
-/* Side-car contracts for the typed one-liners, one instantiation (wrapper type T) per compilation.
- * -DFN_RD_GET=StringReader_get_u16b etc. name the functions; NAMED_DEC/BITS come from contracts/C03_ce.h for wrapper
- * types and are defined here for the native 8-bit types. WB = encoded width in bytes. */
+/* Side-car contracts for the typed one-liners, one accessor (FN) per compilation.
+ * The specification comes from the accessor's NAME: SPEC_T value type, SPEC_W bits, SPEC_BIG byte order, SPEC_FLOAT.
+ * FKIND: 1 reader get, 2 reader pget, 3 StringWriter put, 4 StringWriter pput, 5 BufferWriter put, 6 BufferWriter pput,
+ *        7 round-trip lemma (FN = put, FN2 = get). WB = encoded width in bytes. */
 #ifndef RW_TYPED_H
 #define RW_TYPED_H
 #include "contracts/RW_writer.h"
-#if NATIVE8
-#define WB 1
-#define BITS(x) ((uint8_t)(x))
-#define NAMED_DEC(p) ((uint8_t)MEMB(p, 0))
-#define NAMED_IS_BIG 1
+#define WB (SPEC_W / 8)
+#if SPEC_W == 8
+#define SUT uint8_t
+#define SDEC(p) ((uint8_t)MEMB(p, 0))
+#elif SPEC_W == 16
+#define SUT uint16_t
+#define SDEC(p) ((uint16_t)(SPEC_BIG ? DEC_BE16(p) : DEC_LE16(p)))
+#elif SPEC_W == 32
+#define SUT uint32_t
+#define SDEC(p) ((uint32_t)(SPEC_BIG ? DEC_BE32(p) : DEC_LE32(p)))
 #else
-#define WB (W / 8)
+#define SUT uint64_t
+#define SDEC(p) ((uint64_t)(SPEC_BIG ? DEC_BE64(p) : DEC_LE64(p)))
 #endif
-/* byte i (in memory order) of the encoding of the bit pattern b in the named byte order */
-#if NAMED_IS_BIG
-#define NAMED_BYTE(b, i) VBYTE(b, WB - 1 - (i))
+#if SPEC_FLOAT && SPEC_W == 32
+#define SBITS(x) F2U(x)
+#elif SPEC_FLOAT
+#define SBITS(x) D2U(x)
 #else
-#define NAMED_BYTE(b, i) VBYTE(b, i)
+#define SBITS(x) ((SUT)(x))
 #endif
+/* byte i (memory order) of the encoding of bit pattern b in the byte order the name promises */
+#define SBYTE(b, i) (SPEC_BIG ? VBYTE(b, WB - 1 - (i)) : VBYTE(b, i))
 
-#ifdef FN_RD_GET
-ExposedT FN_RD_GET(StringReader* self, bool advance)
-RD_REQ(self)
-E02(THROWS_OOR(INR(__CPROVER_old(self->offset), WB, self->length)))
-E02(verif_exc != 0 ==> self->offset == __CPROVER_old(self->offset))
-E02(__CPROVER_old(self->offset) <= self->length ==> self->offset <= self->length)
-E01(verif_exc == 0 ==> BITS(__CPROVER_return_value) == NAMED_DEC(self->data + __CPROVER_old(self->offset)))
-E01(verif_exc == 0 ==> self->offset == __CPROVER_old(self->offset) + (advance ? WB : 0))
+#define C_RD_GET(F) \
+SPEC_T F(StringReader* self, bool advance) \
+RD_REQ(self) \
+E02(THROWS_OOR(INR(__CPROVER_old(self->offset), WB, self->length))) \
+E02(verif_exc != 0 ==> self->offset == __CPROVER_old(self->offset)) \
+E02(__CPROVER_old(self->offset) <= self->length ==> self->offset <= self->length) \
+E01(verif_exc == 0 ==> SBITS(__CPROVER_return_value) == SDEC(self->data + __CPROVER_old(self->offset))) \
+E01(verif_exc == 0 ==> self->offset == __CPROVER_old(self->offset) + (advance ? WB : 0)) \
 __CPROVER_assigns(verif_exc, self->offset);
 
-ExposedT FN_RD_PGET(const StringReader* self, size_t offset)
-RD_REQ(self)
-E02(THROWS_OOR(INR(offset, WB, self->length)))
-E01(verif_exc == 0 ==> BITS(__CPROVER_return_value) == NAMED_DEC(self->data + offset))
+#define C_RD_PGET(F) \
+SPEC_T F(const StringReader* self, size_t offset) \
+RD_REQ(self) \
+E02(THROWS_OOR(INR(offset, WB, self->length))) \
+E01(verif_exc == 0 ==> SBITS(__CPROVER_return_value) == SDEC(self->data + offset)) \
 __CPROVER_assigns(verif_exc);
-#endif
 
-#ifdef FN_SW_PUT
-/* append: size grows by exactly WB, the new bytes are the encoding of v in the named order, older bytes unchanged */
-void FN_SW_PUT(StringWriter* self, ExposedT v)
-SW_REQ(self) __CPROVER_requires(WB <= self->data.cap - self->data.size)
-E02(verif_exc == 0 && self->data.size <= self->data.cap)
-E01(self->data.size == __CPROVER_old(self->data.size) + WB)
-E01((g_vk >= __CPROVER_old(self->data.size) && g_vk < self->data.size) ==> (uint8_t)self->data.data[g_vk] == NAMED_BYTE(BITS(v), g_vk - __CPROVER_old(self->data.size)))   /* every new byte (ghost index) is the encoding byte */
-E01(g_vk < __CPROVER_old(self->data.size) ==> self->data.data[g_vk] == (char)g_vval)
+/* append: size grows by exactly WB, every new byte (ghost index) is the encoding byte, older bytes unchanged */
+#define C_SW_PUT(F) \
+void F(StringWriter* self, SPEC_T v) \
+SW_REQ(self) __CPROVER_requires(WB <= self->data.cap - self->data.size) \
+E02(verif_exc == 0 && self->data.size <= self->data.cap) \
+E01(self->data.size == __CPROVER_old(self->data.size) + WB) \
+E01((g_vk >= __CPROVER_old(self->data.size) && g_vk < self->data.size) ==> (uint8_t)self->data.data[g_vk] == SBYTE(SBITS(v), g_vk - __CPROVER_old(self->data.size))) \
+E01(g_vk < __CPROVER_old(self->data.size) ==> self->data.data[g_vk] == (char)g_vval) \
 __CPROVER_assigns(self->data.size, __CPROVER_object_whole(self->data.data));
 
 /* positional write: grows (zero-extending) to cover [offset, offset+WB) or throws length_error when it cannot; bytes
  * outside the written range keep their value */
-void FN_SW_PPUT(StringWriter* self, size_t offset, ExposedT v)
-SW_REQ(self)
-E02(INR(offset, WB, self->data.cap) ? verif_exc == 0 : verif_exc == EXC_length_error)
-E02(verif_exc == 0 ==> INR(offset, WB, self->data.size))
-E02(self->data.size <= self->data.cap)
-E01(verif_exc == 0 ==> self->data.size == (offset + WB > __CPROVER_old(self->data.size) ? offset + WB : __CPROVER_old(self->data.size)))
-E01((verif_exc == 0 && g_mk < WB) ==> (uint8_t)self->data.data[offset + g_mk] == NAMED_BYTE(BITS(v), g_mk))
-E01((verif_exc == 0 && g_vk >= __CPROVER_old(self->data.size) && g_vk < offset) ==> self->data.data[g_vk] == 0)
-E01((g_vk < __CPROVER_old(self->data.size) && (verif_exc != 0 || g_vk < offset || g_vk - offset >= WB)) ==> self->data.data[g_vk] == (char)g_vval)
+#define C_SW_PPUT(F) \
+void F(StringWriter* self, size_t offset, SPEC_T v) \
+SW_REQ(self) \
+E02(INR(offset, WB, self->data.cap) ? verif_exc == 0 : verif_exc == EXC_length_error) \
+E02(verif_exc == 0 ==> INR(offset, WB, self->data.size)) \
+E02(self->data.size <= self->data.cap) \
+E01(verif_exc == 0 ==> self->data.size == (offset + WB > __CPROVER_old(self->data.size) ? offset + WB : __CPROVER_old(self->data.size))) \
+E01((verif_exc == 0 && g_mk < WB) ==> (uint8_t)self->data.data[offset + g_mk] == SBYTE(SBITS(v), g_mk)) \
+E01((verif_exc == 0 && g_vk >= __CPROVER_old(self->data.size) && g_vk < offset) ==> self->data.data[g_vk] == 0) \
+E01((g_vk < __CPROVER_old(self->data.size) && (verif_exc != 0 || g_vk < offset || g_vk - offset >= WB)) ==> self->data.data[g_vk] == (char)g_vval) \
 __CPROVER_assigns(verif_exc, self->data.size, __CPROVER_object_whole(self->data.data));
-#endif
 
-#ifdef FN_BW_PUT
-void FN_BW_PUT(BufferWriter* self, ExposedT v)
-BW_REQ(self)
-E02(INR(__CPROVER_old(self->offset), WB, self->buf_size) ? verif_exc == 0 : verif_exc == EXC_runtime_error)
-E02(verif_exc != 0 ==> self->offset == __CPROVER_old(self->offset))
-E02(g_vk < self->buf_size && !(verif_exc == 0 && g_vk >= __CPROVER_old(self->offset) && g_vk - __CPROVER_old(self->offset) < WB) ==> self->buf[g_vk] == g_vval)
-E01(verif_exc == 0 ==> self->offset == __CPROVER_old(self->offset) + WB)
-E01((verif_exc == 0 && g_mk < WB) ==> self->buf[__CPROVER_old(self->offset) + g_mk] == NAMED_BYTE(BITS(v), g_mk))
+#define C_BW_PUT(F) \
+void F(BufferWriter* self, SPEC_T v) \
+BW_REQ(self) \
+E02(INR(__CPROVER_old(self->offset), WB, self->buf_size) ? verif_exc == 0 : verif_exc == EXC_runtime_error) \
+E02(verif_exc != 0 ==> self->offset == __CPROVER_old(self->offset)) \
+E02(g_vk < self->buf_size && !(verif_exc == 0 && g_vk >= __CPROVER_old(self->offset) && g_vk - __CPROVER_old(self->offset) < WB) ==> self->buf[g_vk] == g_vval) \
+E01(verif_exc == 0 ==> self->offset == __CPROVER_old(self->offset) + WB) \
+E01((verif_exc == 0 && g_mk < WB) ==> self->buf[__CPROVER_old(self->offset) + g_mk] == SBYTE(SBITS(v), g_mk)) \
 __CPROVER_assigns(verif_exc, self->offset, __CPROVER_object_whole(self->buf));
 
-void FN_BW_PPUT(BufferWriter* self, size_t offset, ExposedT v)
-BW_REQ(self)
-E02(INR(offset, WB, self->buf_size) ? verif_exc == 0 : verif_exc == EXC_runtime_error)
-E02(g_vk < self->buf_size && !(verif_exc == 0 && g_vk >= offset && g_vk - offset < WB) ==> self->buf[g_vk] == g_vval)
-E01((verif_exc == 0 && g_mk < WB) ==> self->buf[offset + g_mk] == NAMED_BYTE(BITS(v), g_mk))
+#define C_BW_PPUT(F) \
+void F(BufferWriter* self, size_t offset, SPEC_T v) \
+BW_REQ(self) \
+E02(INR(offset, WB, self->buf_size) ? verif_exc == 0 : verif_exc == EXC_runtime_error) \
+E02(g_vk < self->buf_size && !(verif_exc == 0 && g_vk >= offset && g_vk - offset < WB) ==> self->buf[g_vk] == g_vval) \
+E01((verif_exc == 0 && g_mk < WB) ==> self->buf[offset + g_mk] == SBYTE(SBITS(v), g_mk)) \
 __CPROVER_assigns(verif_exc, __CPROVER_object_whole(self->buf));
+
+#if FKIND == 1
+C_RD_GET(FN)
+#elif FKIND == 2
+C_RD_PGET(FN)
+#elif FKIND == 3
+C_SW_PUT(FN)
+#elif FKIND == 4
+C_SW_PPUT(FN)
+#elif FKIND == 5
+C_BW_PUT(FN)
+#elif FKIND == 6
+C_BW_PPUT(FN)
+#elif FKIND == 7
+C_SW_PUT(FN)
+C_RD_GET(FN2)
 #endif
 #endif
